@@ -48,7 +48,11 @@ claim("C09",
       "Static, all paths of Truncate/truncateLoop/popEdns0: TSIG opt-out before any effect, size floored before any use, popped OPT re-appended on every path and last, order-preserving OPT removal, TC = old TC or dropped-from-some-section with matching section/count pairs, sections only cut to prefixes with counts from truncateLoop of the same section, running offset threaded, later sections walked only below the budget. The numeric clauses (packed length <= max(size,512), first dropped record would not have fitted) are not decided.",
       STATIC_NOTE, "SSA edge-dominance, must-pass, value-identity and phi-structure rules")
 
+claim("C12",
+      "Static, all paths (thorough: all build configurations): length-prefixed stream reads (2-octet big-endian length, io.ReadFull of exactly that many from the same connection, over-long lengths refused), raw reads only on the packet edge, framed stream writes (fresh buffer 2+len, prefix, copy, refusal above 65535), nil error from an exchange only with reply ID == query ID and the skip loop only on packet connections, no use of the receive buffer after it went back to the pool, a fresh unshared response writer per request. The decoded request not aliasing the receive buffer is decided under C16.R2. All interleavings, short reads/writes and early EOF are not decided: schedules / fault sequences.",
+      STATIC_NOTE, "SSA edge-dominance with edge facts on phi-merged returns; byte-access provenance; use-after-release reachability")
+
 _pending = "rules for this property are designed (DESIGN.md §4) but not implemented yet; not claimed until they run"
-for p in ["C02","C03","C05","C06","C07","C12","C16"]:
+for p in ["C02","C03","C05","C06","C07","C16"]:
     na(p, _pending)
 na("C19", "every clause is an equality between index arithmetic on a runtime string and its label sequence; no pairing/ownership/ordering/table structure to decide statically (DESIGN.md §8)")
